@@ -1,4 +1,5 @@
 import TurVerif.Model.CommitOrder
+import TurVerif.Model.CommitCover
 /-!
 C38  Concurrent commits log page images in commit order.
 -/
@@ -144,5 +145,235 @@ theorem stale_image_counterexample :
 theorem atomic_same_schedule_fine :
     let s := run (init true 2) cexSched
     s.wal = [1, 2] ∧ replayed s = some 2 := by decide
+
+end TurVerif.C38
+
+/-! ## Second clause: which pages a commit covers (`TurVerif.CommitCover`) -/
+namespace TurVerif.C38
+open TurVerif.CommitCover
+
+theorem getVer_setVer_same (m : List (PageId × Nat)) (pg : PageId) (v : Nat) :
+    getVer (setVer m pg v) pg = v := by
+  induction m with
+  | nil => simp [setVer, getVer]
+  | cons a rest ih =>
+    obtain ⟨q, w⟩ := a
+    by_cases h : q = pg
+    · simp [setVer, getVer, h]
+    · simp [setVer, getVer, h, ih]
+
+theorem getVer_setVer_other (m : List (PageId × Nat)) (q pg : PageId) (v : Nat) (h : q ≠ pg) :
+    getVer (setVer m q v) pg = getVer m pg := by
+  induction m with
+  | nil => simp [setVer, getVer, h]
+  | cons a rest ih =>
+    obtain ⟨r, w⟩ := a
+    by_cases hr : r = q
+    · subst hr; simp [setVer, getVer, h]
+    · by_cases hp : r = pg
+      · subst hp; simp [setVer, getVer, hr]
+      · simp [setVer, getVer, hr, hp, ih]
+
+theorem mem_markDirty_self (d : List PageId) (pg : PageId) : pg ∈ markDirty d pg := by
+  unfold markDirty
+  split
+  · rename_i h; simpa using h
+  · simp
+
+theorem mem_markDirty_of_mem (d : List PageId) (pg q : PageId) (h : q ∈ d) : q ∈ markDirty d pg := by
+  unfold markDirty
+  split
+  · exact h
+  · simp [h]
+
+def isWrite : Op → Bool
+  | .write _ _ => true
+  | _ => false
+
+/-- writes never remove a page from the dirty tracker -/
+theorem dirty_mono_writes (s : St) (ops : List Op) (hw : ∀ op ∈ ops, isWrite op = true) (q : PageId)
+    (h : q ∈ s.dirty) : q ∈ (run s ops).dirty := by
+  induction ops generalizing s with
+  | nil => exact h
+  | cons op rest ih =>
+    simp only [run]
+    apply ih
+    · intro o ho; exact hw o (List.mem_cons_of_mem _ ho)
+    · cases op with
+      | write pg w =>
+        cases w
+        · simpa [step] using h
+        · simpa [step] using mem_markDirty_of_mem _ _ _ h
+      | drain f => have := hw (.drain f) (by simp); simp [isWrite] at this
+      | clear f => have := hw (.clear f) (by simp); simp [isWrite] at this
+
+/-- a page written through the wrapped storage is in the dirty tracker until the next drain -/
+theorem wrapped_write_marks_dirty (s : St) (ops : List Op) (hw : ∀ op ∈ ops, isWrite op = true)
+    (pg : PageId) (h : Op.write pg true ∈ ops) : pg ∈ (run s ops).dirty := by
+  induction ops generalizing s with
+  | nil => simp at h
+  | cons op rest ih =>
+    simp only [run]
+    have hrest : ∀ o ∈ rest, isWrite o = true := fun o ho => hw o (List.mem_cons_of_mem _ ho)
+    rcases List.mem_cons.mp h with h | h
+    · subst h
+      exact dirty_mono_writes _ rest hrest pg (by simpa [step] using mem_markDirty_self s.dirty pg)
+    · exact ih _ hrest h
+
+/-- draining a table logs the CURRENT image of each of its dirty pages -/
+theorem drain_covers (s : St) (pg : PageId) (h : pg ∈ s.dirty) :
+    covered (step s (.drain pg.1)) pg = true := by
+  simp only [covered, step, drained, List.contains_eq_mem, List.mem_append, List.mem_map,
+    List.mem_filter, decide_eq_true_eq]
+  right
+  exact ⟨pg, ⟨h, by simp⟩, rfl⟩
+
+/-- later drains / clears do not touch page contents and only append to the log -/
+theorem covered_mono (s : St) (op : Op) (hnw : isWrite op = false) (pg : PageId)
+    (h : covered s pg = true) : covered (step s op) pg = true := by
+  cases op with
+  | write q w => simp [isWrite] at hnw
+  | drain f =>
+    simp only [covered, step, List.contains_eq_mem, List.mem_append, decide_eq_true_eq] at h ⊢
+    exact Or.inl h
+  | clear f => simpa [covered, step] using h
+
+theorem covered_mono_run (s : St) (ops : List Op) (hnw : ∀ op ∈ ops, isWrite op = false) (pg : PageId)
+    (h : covered s pg = true) : covered (run s ops) pg = true := by
+  induction ops generalizing s with
+  | nil => exact h
+  | cons op rest ih =>
+    simp only [run]
+    exact ih _ (fun o ho => hnw o (List.mem_cons_of_mem _ ho)) (covered_mono s op (hnw op (by simp)) pg h)
+
+/-- SECOND CLAUSE, the part the code's protocol guarantees: a unit of page writes followed by the
+drain of a table covers every page of that table that was written through the WAL-wrapped storage,
+whatever else was written and however the state looked before -/
+theorem unit_then_drain_covers_wrapped (s : St) (writes : List Op)
+    (hw : ∀ op ∈ writes, isWrite op = true) (pg : PageId) (h : Op.write pg true ∈ writes) :
+    covered (run s (writes ++ [.drain pg.1])) pg = true := by
+  have hrun : ∀ (s : St) (l1 l2 : List Op), run s (l1 ++ l2) = run (run s l1) l2 := by
+    intro s l1; induction l1 generalizing s with
+    | nil => intro l2; rfl
+    | cons a r ih => intro l2; simp [run, ih]
+  rw [hrun]
+  simp only [run]
+  exact drain_covers _ pg (wrapped_write_marks_dirty s writes hw pg h)
+
+/-- a drain of table `f` covers a dirty page of `f` also when other drains follow (COMMIT drains
+every dirty table, one after the other) -/
+theorem drains_cover (s : St) (pg : PageId) (h : pg ∈ s.dirty) (before after : List Nat)
+    (hb : pg.1 ∉ before) :
+    covered (run s (before.map .drain ++ [.drain pg.1] ++ after.map .drain)) pg = true := by
+  have hrun : ∀ (s : St) (l1 l2 : List Op), run s (l1 ++ l2) = run (run s l1) l2 := by
+    intro s l1; induction l1 generalizing s with
+    | nil => intro l2; rfl
+    | cons a r ih => intro l2; simp [run, ih]
+  rw [hrun, hrun]
+  apply covered_mono_run
+  · intro op hop
+    rcases List.mem_map.mp hop with ⟨f, _, rfl⟩; rfl
+  · simp only [run]
+    apply drain_covers
+    -- drains of other tables keep `pg` dirty
+    clear hrun
+    induction before generalizing s with
+    | nil => exact h
+    | cons f rest ih =>
+      simp only [List.map_cons, run]
+      apply ih
+      · simp only [step, List.mem_filter]
+        refine ⟨h, ?_⟩
+        have : pg.1 ≠ f := fun e => hb (by simp [e])
+        simpa using this
+      · intro hm; exact hb (List.mem_cons_of_mem _ hm)
+
+/-- invariant of every reachable state: no logged image is newer than the page -/
+def WalLe (s : St) : Prop := ∀ x ∈ s.wal, x.2 ≤ getVer s.ver x.1
+
+theorem walLe_step (s : St) (op : Op) (h : WalLe s) : WalLe (step s op) := by
+  cases op with
+  | write pg w =>
+    intro x hx
+    simp only [step] at hx ⊢
+    by_cases e : pg = x.1
+    · subst e; rw [getVer_setVer_same]; exact Nat.le_succ_of_le (h x hx)
+    · rw [getVer_setVer_other _ _ _ _ e]; exact h x hx
+  | drain f =>
+    intro x hx
+    simp only [step, List.mem_append, List.mem_map] at hx ⊢
+    rcases hx with hx | ⟨q, _, rfl⟩
+    · exact h x hx
+    · exact Nat.le_refl _
+  | clear f => intro x hx; exact h x (by simpa [step] using hx)
+
+theorem walLe_run (s : St) (ops : List Op) (h : WalLe s) : WalLe (run s ops) := by
+  induction ops generalizing s with
+  | nil => exact h
+  | cons op rest ih => exact ih _ (walLe_step s op h)
+
+theorem walLe_reachable (ops : List Op) : WalLe (run {} ops) :=
+  walLe_run _ ops (by intro x hx; simp at hx)
+
+/-- SECOND CLAUSE, where the code falls short: a page written through an UNWRAPPED storage (index
+file, header page) while it is not in the dirty tracker is not covered, however many drains the
+commit performs -/
+theorem unwrapped_write_not_covered (s : St) (hle : WalLe s) (pg : PageId) (hnd : pg ∉ s.dirty)
+    (drains : List Op) (hd : ∀ op ∈ drains, isWrite op = false) :
+    covered (run (step s (.write pg false)) drains) pg = false := by
+  -- invariant along the drains: pg is not dirty, the version stays v+1, every logged image of pg is ≤ v
+  have key : ∀ (t : St) (l : List Op), (∀ op ∈ l, isWrite op = false) → pg ∉ t.dirty →
+      getVer t.ver pg = getVer s.ver pg + 1 → (∀ x ∈ t.wal, x.1 = pg → x.2 ≤ getVer s.ver pg) →
+      covered (run t l) pg = false := by
+    intro t l
+    induction l generalizing t with
+    | nil =>
+      intro _ _ hv hw
+      simp only [run, covered, List.contains_eq_mem, decide_eq_false_iff_not]
+      intro hm
+      have := hw _ hm rfl
+      simp only at this
+      omega
+    | cons op rest ih =>
+      intro hl hnd' hv hw
+      simp only [run]
+      have hop := hl op (by simp)
+      apply ih _ (fun o ho => hl o (List.mem_cons_of_mem _ ho))
+      · cases op with
+        | write q w => simp [isWrite] at hop
+        | drain f => simp only [step, List.mem_filter]; intro hm; exact hnd' hm.1
+        | clear f => simp only [step, List.mem_filter]; intro hm; exact hnd' hm.1
+      · cases op with
+        | write q w => simp [isWrite] at hop
+        | drain f => simpa [step] using hv
+        | clear f => simpa [step] using hv
+      · cases op with
+        | write q w => simp [isWrite] at hop
+        | drain f =>
+          intro x hx hxp
+          simp only [step, List.mem_append, List.mem_map, drained, List.mem_filter] at hx
+          rcases hx with hx | ⟨q, ⟨hq, _⟩, rfl⟩
+          · exact hw x hx hxp
+          · simp only at hxp; subst hxp; exact absurd hq hnd'
+        | clear f => intro x hx hxp; exact hw x (by simpa [step] using hx) hxp
+  apply key _ drains hd
+  · simpa [step] using hnd
+  · simp [step, getVer_setVer_same]
+  · intro x hx hxp
+    have := hle x (by simpa [step] using hx)
+    rw [hxp] at this; exact this
+
+/-- index page written next to a table page; the statement drains the table: the index page's
+image is in no frame (C01/C02 finding "index pages bypass the WAL", seen from the commit side) -/
+theorem index_page_uncovered_counterexample :
+    let s := run {} [.write (1, 1) true, .write (2, 1) false, .drain 1]
+    covered s (1, 1) = true ∧ covered s (2, 1) = false := by decide
+
+/-- autocommit UPDATE of a TOAST-sized value: the TOAST page IS marked dirty (table 4) but the
+statement drains only its own table (1); the TOAST page stays uncovered until some later COMMIT
+drains every dirty table -/
+theorem toast_page_not_drained_counterexample :
+    let s := run {} [.write (1, 1) true, .write (4, 1) true, .drain 1]
+    covered s (4, 1) = false ∧ covered (run s (commitAll s)) (4, 1) = true := by decide
 
 end TurVerif.C38
